@@ -80,7 +80,7 @@ impl Property for C11 {
     fn rule(&self) -> &'static str {
         "case = generated system + 0-2 user lexicons (every combination of elided / explicit forms, dic-form references incl. words that are their own \
          dictionary form, splits, word structure, synonym ids), current or legacy (no synonym ids) binary format, a plugin configuration, 1-3 texts, 4 field subsets \
-         and one of three call orders of set_mode / set_subset. Part 1: for EVERY word of every dictionary and ALL 1024 subsets S, every field of S read through its \
+         and one of four call orders of set_mode / set_subset. Part 1: for EVERY word of every dictionary and ALL 1024 subsets S, every field of S read through its \
          accessor after get_word_info_subset(S closed as the tokenizer closes it) equals the value after a full load. Part 2: analyses with set_subset(S) in modes \
          A/B/C: the partition holds for every S; when no path-rewrite plugin is configured or S contains surface, POS and normalised form the tokens (range, word id) \
          equal the full-field analysis and every requested field of every morpheme equals the full-field value. Non-trivial: a subset that skips a variable-length \
@@ -100,7 +100,7 @@ impl Property for C11 {
         // every word is read under all 1,024 subsets: keep the homograph family small here (C04 / C10 carry the big one)
         dp.homographs = 12;
         dp.max_user_entries = 4;
-        (world(dp, CfgParams::full()), vec(pieces_long(tier.pick(8, 20)), 1..=3), vec(prop_oneof![0u16..1024, (0u16..1024).prop_map(|x| x | 13)], 4), prop::bool::weighted(0.3), 0u8..3)
+        (world(dp, CfgParams::full()), vec(pieces_long(tier.pick(8, 20)), 1..=3), vec(prop_oneof![0u16..1024, (0u16..1024).prop_map(|x| x | 13)], 4), prop::bool::weighted(0.3), 0u8..4)
             .prop_map(|((dic, cfg), texts, subsets, legacy, order)| Case { dic, cfg, texts, subsets, legacy, order })
             .boxed()
     }
@@ -221,8 +221,17 @@ impl Property for C11 {
                             t.set_subset(s);
                             t
                         }
-                        _ => {
+                        2 => {
                             let mut t = StatefulTokenizer::new(&dict, Mode::C);
+                            t.set_subset(s);
+                            t.set_mode(mode);
+                            t
+                        }
+                        _ => {
+                            // a longer life: another request without the reference fields, another mode, then the real ones
+                            let mut t = StatefulTokenizer::new(&dict, Mode::C);
+                            t.set_subset(s - (InfoSubset::SPLIT_A | InfoSubset::SPLIT_B | InfoSubset::WORD_STRUCTURE));
+                            t.set_mode(if mode == Mode::A { Mode::B } else { Mode::A });
                             t.set_subset(s);
                             t.set_mode(mode);
                             t
